@@ -33,9 +33,15 @@ Base == {
   (* a struct with embedded structs: type embOuter struct { Base; *hiddenBase; Own string } - the fields of the embedded structs are
      promoted (ID, Title from the exported Base; Code through a pointer to an unexported type) *)
   [id |-> "struct:emb", kind |-> "fstruct", fields |-> << <<"Own", SB("own")>>, <<"ID", IntV(7)>>, <<"Title", SB("ti")>>, <<"Code", IntV(3)>> >>,
-   structs |-> {"Base"}] }
+   structs |-> {"Base"}],
+  (* the same with the embedded pointer nil: Code is promoted through a nil pointer, so it is not there *)
+  [id |-> "struct:embnil", kind |-> "fstruct", fields |-> << <<"Own", SB("own")>>, <<"ID", IntV(7)>>, <<"Title", SB("ti")>> >>, structs |-> {"Base"}],
+  (* fields of function type: F returns "x"; N and G are nil functions *)
+  [id |-> "struct:funcs", kind |-> "fstruct", fields |-> << <<"F", SB("x")>> >>, structs |-> {}],
+  (* map[interface{}]string: any key may be asked for, only "a" is there; a slice or hash can never be a key *)
+  Mapc("map:vs:a=b", "any", << <<SB("a"), SB("b")>> >>) }
 Ptrs == {[d EXCEPT !.id = "ptr:" \o d.id] : d \in {b \in Base : b.id \in {"slice:int:4,5,6", "slice:string:a,b", "map:ss:a=x,b=y",
-                                                                              "map:is:1=a,2=b", "map:ns:1=a,3=c", "struct:person", "array3", "slice:int:", "struct:emb"}}}
+                                                                              "map:is:1=a,2=b", "map:ns:1=a,3=c", "struct:person", "array3", "slice:int:", "struct:emb", "struct:embnil", "struct:funcs", "map:vs:a=b"}}}
 Nils == {[id |-> x, kind |-> "nil"] : x \in {"nil", "nilptr:slice", "nilptr:map", "nilptr:person", "slice:nilint", "map:nilss", "nilptr:int"}}
 Scalars == {[id |-> x, kind |-> "scalar"] : x \in {"num:int:192", "num:float64:96", "str:abc", "bool:t", "stringer:abc", "func", "chan"}}
 Containers == Base \cup Ptrs \cup Nils \cup Scalars
@@ -44,7 +50,8 @@ Desc(id) == CHOOSE d \in Containers : d.id = id
 HostKey(id) == [t |-> "go", id |-> id]
 Keys == << SB("a"), SB("zz"), SB("1"), SB(""), IntV(0), IntV(1), IntV(2), IntV(3), IntV(8), IntV(0 - 1), Num(96), Bool(TRUE), Bool(FALSE), Null,
            SB("Name"), SB("Age"), SB("Tags"), SB("Inner"), SB("secret"), SB("Greet"), SB("Nothing"), SB("Two"), SB("Sum"), SB("Rename"),
-           SB("Self"), SB("hidden"), SB("Nope"), SB("k"), IntV(1000000), SB("Wait"), SB("Level"), IntV(300), SB("Own"), SB("ID"), SB("Title"), SB("Code"), SB("Base"), SB("hiddenBase"),
+           SB("Self"), SB("hidden"), SB("Nope"), SB("k"), IntV(1000000), SB("Wait"), SB("Level"), IntV(300), SB("Own"), SB("ID"), SB("Title"), SB("Code"), SB("Base"), SB("hiddenBase"), SB("F"), SB("N"), SB("G"),
+           HostKey("slice:int:4,5,6"), HostKey("map:ss:k=v"), HostKey("func"),
            (* host numbers far outside the window: no container has them as a key or index; the lookup is an error, never a panic *)
            HostKey("huge:1e19"), HostKey("huge:-1e19"), HostKey("huge:1e300"), HostKey("huge:inf"), HostKey("huge:-inf"), HostKey("huge:nan"),
            HostKey("big:uint64:max"), HostKey("big:int64:min"), HostKey("big:int64:max"), SB("1e30"), SB("Inf"), SB("-1e30"), SB("NaN") >>
@@ -84,6 +91,8 @@ GetAttrRef(d, key, args) ==
          ELSE IF d.keyt = "float" /\ key.t = "num"
          THEN (IF \E q \in 1..Len(d.ents) : d.ents[q][1] = key THEN Elem(d.ents[CHOOSE q \in 1..Len(d.ents) : d.ents[q][1] = key][2]) ELSE ErrR)
          ELSE IF d.keyt = "bool" /\ key.t = "bool"
+         THEN (IF \E q \in 1..Len(d.ents) : d.ents[q][1] = key THEN Elem(d.ents[CHOOSE q \in 1..Len(d.ents) : d.ents[q][1] = key][2]) ELSE ErrR)
+         ELSE IF d.keyt = "any"
          THEN (IF \E q \in 1..Len(d.ents) : d.ents[q][1] = key THEN Elem(d.ents[CHOOSE q \in 1..Len(d.ents) : d.ents[q][1] = key][2]) ELSE ErrR)
          ELSE IF d.keyt = "int" /\ key.t = "num" THEN           \* every number in a template is a float64: an integral one is a usable key
               (IF key.q % Scale # 0 THEN ErrR
